@@ -1438,6 +1438,13 @@ pub assume_specification [<{q} as PartialEq>::eq] (a: &{q}, b: &{q}) -> (r: bool
                 self.clauses[cid] = {'kind': 'invariant', 'fn': fid, 'text': ' '.join(text.split())}
                 clause_list.append(cid)
                 lsegs += [Seg('                '), Seg(text, clause=cid, fn=fid), Seg(',\n')]
+            if lspec.get('ensures'):
+                lsegs.append(Seg('            ensures\n'))
+                for nm, text in lspec['ensures']:
+                    cid = f'{fid}.loop{k_}.ens.{nm}'
+                    self.clauses[cid] = {'kind': 'invariant', 'fn': fid, 'text': ' '.join(text.split())}
+                    clause_list.append(cid)
+                    lsegs += [Seg('                '), Seg(text, clause=cid, fn=fid), Seg(',\n')]
             if lspec.get('decreases'):
                 lsegs.append(Seg(f'            decreases {lspec["decreases"]},\n'))
             edits.append((L['body'][0], L['body'][0], lsegs))
